@@ -408,7 +408,6 @@ func (ds *diskState) describe() string {
 	return sb.String()
 }
 
-
 // ---- the check (timer driven, plain SIGKILL) ------------------------------------------------------
 
 func checkRec(cs *recCase, o *pt.Obs) error {
